@@ -454,6 +454,11 @@ def close_payload(ip, code, reason):
 
 def close_frame_facts(ip, w, code, rb):
     d = rfc6455.decode_one(w)
+    if code is None:
+        # build_close_payload(None, reason) is the empty payload (RFC 6455 5.5.1: the body is optional)
+        return [('fin-set', d.fin == 1), ('masked', d.mask == 1), ('rsv-clear', And(d.rsv1 == 0, d.rsv2 == 0, d.rsv3 == 0)),
+                ('close-opcode', d.opcode == 8), ('minimal-length-form', d.minimal), ('declared-length', d.plen == 0),
+                ('whole-write-is-one-frame', d.total == w.n), ('control-payload-at-most-125', d.plen <= 125, ('C03',))]
     j = fresh('j')
     k0, k1 = d.key.at(IntVal(0)), d.key.at(IntVal(1))
     return [('fin-set', d.fin == 1), ('masked', d.mask == 1), ('rsv-clear', And(d.rsv1 == 0, d.rsv2 == 0, d.rsv3 == 0)),
@@ -477,9 +482,11 @@ def code_masked(d, code):
 
 class _CloseBase(_Api):
     def variants(self):
-        return ['bytes', 'str']
+        return ['bytes', 'str', 'nocode']
 
     def close_args(self, ip, v):
+        if v == 'nocode':
+            return dict(code=None, reason=mk(ip, T.Str, 'reason'))
         return dict(code=mk(ip, T.Int(0, 65535), 'code'), reason=mk(ip, T.Bytes(BYTES) if v == 'bytes' else T.Str, 'reason'))
 
 
@@ -493,7 +500,8 @@ class SendCloseInternal(_CloseBase):
 
     def raises(self, ip, a, old):
         rb = close_payload(ip, a.code, a.reason)
-        return [Raises(ValueError, when=rb.n > 123, iff=True, ensures=self.nothing(ip, old), modifies=[], tags=('C03',))]
+        too_long = rb.n > 123 if a.code is not None else BoolVal(False)
+        return [Raises(ValueError, when=too_long, iff=True, ensures=self.nothing(ip, old), modifies=[], tags=('C03',))]
 
     def result(self, ip, a, old):
         st = ip.st
@@ -516,7 +524,7 @@ class SendCloseInternal(_CloseBase):
         if res is True:
             out = [('exactly-one-frame-written', BoolVal(len(w) == 1)), ('only-when-open', Not(refused))]
             if len(w) == 1:
-                out += close_frame_facts(ip, w[0], iv(a.code), rb)
+                out += close_frame_facts(ip, w[0], None if a.code is None else iv(a.code), rb)
             return out
         if res is False:
             return [('writes-nothing-when-refused', BoolVal(len(w) == 0)),
@@ -543,7 +551,8 @@ class Close(_CloseBase):
 
     def raises(self, ip, a, old):
         rb = close_payload(ip, a.code, a.reason)
-        return [Raises(ValueError, when=And(self.was_open(ip, old), rb.n > 123), iff=True, modifies=[], tags=('C03',),
+        too_long = rb.n > 123 if a.code is not None else BoolVal(False)
+        return [Raises(ValueError, when=And(self.was_open(ip, old), too_long), iff=True, modifies=[], tags=('C03',),
                        ensures=self.nothing(ip, old))]
 
     def result(self, ip, a, old):
@@ -579,5 +588,5 @@ class Close(_CloseBase):
         else:
             out.append(('close-time-recorded-when-it-was-open', BoolVal(sct is not None), ('C08', 'C15')))
         if len(w) == 1:
-            out += close_frame_facts(ip, w[0], iv(a.code), rb)
+            out += close_frame_facts(ip, w[0], None if a.code is None else iv(a.code), rb)
         return out
